@@ -635,6 +635,11 @@ func assignIPFromLocalPool(log logr.Logger, podsMapper map[string]*PodRequest, i
 						continue
 					}
 
+					if info.ipv6Ref != nil && v.NetworkInterface.ID != info.ipv6Ref.NetworkInterface.ID {
+						// the pod already has ipv6 on an eni, ipv4 must come from the same one
+						continue
+					}
+
 					if v.IP.Status == networkv1beta1.IPStatusValid && v.IP.PodID == "" {
 						info.ipv4Ref = &EniIP{
 							NetworkInterface: v.NetworkInterface,
